@@ -9,3 +9,6 @@ pub use crate::{
     options::FormatOptions,
     trivia::Trivia,
 };
+
+#[cfg(koto_verif)]
+pub use crate::format::verif_trace;
